@@ -96,7 +96,7 @@ def value_type_name(vt):
 
 
 VALID_VALUES = {
-    'string': ['value', 'a b', u'gr\xfc\xdfe'],
+    'string': ['value', 'a b', u'gr\xfc\xdfe', u'\U00020bb7\u91ce\u5bb6 \U0001f600'],      # incl. characters outside the basic multilingual plane
     'anyURI': ['urn:example:a', 'https://example.org/x?y=1'],
     'ID': ['id-1234', '_abc'],
     'NCName': ['name1', '_n-2.x'],
